@@ -63,7 +63,7 @@ type bind struct{ Name, Value string }
 
 // match: does path instantiate the pattern; bindings in order; nonEmpty: every
 // placeholder text is non-empty; align: bit i set = path byte i consumed by a literal.
-func match(pt []tok, path string) (ok bool, b []bind, nonEmpty bool, align uint32) {
+func match(pt []tok, path string) (ok bool, b []bind, nonEmpty bool, align uint64) {
 	i := 0
 	nonEmpty = true
 	for _, t := range pt {
@@ -228,7 +228,7 @@ func judge(patterns []string, toks [][]tok, path string, res result) (string, st
 		idx      int
 		b        []bind
 		nonEmpty bool
-		align    uint32
+		align    uint64
 	}
 	var ms []m
 	for i, pt := range toks {
@@ -594,8 +594,10 @@ func reverse(n int) []int {
 	return p
 }
 
-// scale tier: deterministic large tables with shared prefixes; every record is
-// looked up with two parameter texts, in two insertion orders.
+// scale tier: deterministic large tables with shared prefixes, in two insertion orders. Every record
+// is looked up with two parameter texts, and so are near misses of every instance (trailing slash,
+// last byte dropped, one more segment, every proper segment prefix, one segment removed); every
+// answer is judged by the naive matcher over the WHOLE table.
 func scale(r *report.R) {
 	sizes := []int{1000}
 	if r.Thorough() {
@@ -609,13 +611,13 @@ func scale(r *report.R) {
 			case 0:
 				patterns = append(patterns, fmt.Sprintf("/g%d/r%d", g, i))
 			case 1:
-				patterns = append(patterns, fmt.Sprintf("/g%d/r%d/:p1", g, i))
+				patterns = append(patterns, fmt.Sprintf("/g%d/r%d/:a%d", g, i, i))
 			case 2:
-				patterns = append(patterns, fmt.Sprintf("/g%d/:p1/r%d", g, i))
+				patterns = append(patterns, fmt.Sprintf("/g%d/:b%d/r%d", g, i, i))
 			case 3:
-				patterns = append(patterns, fmt.Sprintf("/g%d/r%d/:p1/t/:p2", g, i))
+				patterns = append(patterns, fmt.Sprintf("/g%d/r%d/:c%d/t/:d%d", g, i, i, i))
 			case 4:
-				patterns = append(patterns, fmt.Sprintf("/g%d/r%d/f/*w", g, i))
+				patterns = append(patterns, fmt.Sprintf("/g%d/r%d/f/*w%d", g, i, i))
 			}
 		}
 		rev := make([]string, n)
@@ -625,14 +627,21 @@ func scale(r *report.R) {
 		for oi, pats := range [][]string{patterns, rev} {
 			rt, err := build(pats)
 			if err != nil {
-				r.Fail("scale-build-error", fmt.Sprintf("table of %d records rejected: %v", n, err), Case{pats[:3], "/", "lookup"})
+				r.Fail("scale-build-error", fmt.Sprintf("table of %d records rejected: %v", n, err), Case{pats, "/", "lookup"})
 				continue
 			}
 			toks := make([][]tok, n)
 			for i, p := range pats {
 				toks[i] = parsePattern(p)
 			}
-			for i, pt := range toks {
+			// patterns are looked at per leading group segment only (all patterns start with /g<k>/)
+			byGroup := map[string][]int{}
+			for i, p := range pats {
+				byGroup[groupOf(p)] = append(byGroup[groupOf(p)], i)
+			}
+			enum.Parallel(n, r.OutOfTime, func(i int) {
+				pt := toks[i]
+				var probes []string
 				for _, txt := range []string{"v", "long-value.1"} {
 					path := ""
 					for _, t := range pt {
@@ -645,16 +654,56 @@ func scale(r *report.R) {
 							path += txt + "/" + txt
 						}
 					}
-					res := lookup(rt, path)
-					r.Eval(1)
-					r.Nontrivial(1)
-					ok, b, _, _ := match(pt, path)
-					if !ok || !res.found || res.data != i || !sameBinds(res.params, b) {
-						r.Fail("scale-mismatch", fmt.Sprintf("table %d order %d: path %q of pattern %q: %s", n, oi, path, pats[i], res), Case{pats, path, "lookup"})
+					probes = append(probes, path, path+"/", path[:len(path)-1], path+"/x", path+"x")
+					segs := strings.Split(path[1:], "/")
+					for k := 1; k < len(segs); k++ {
+						probes = append(probes, "/"+strings.Join(segs[:k], "/"), "/"+strings.Join(segs[:k], "/")+"/")
+						without := append(append([]string{}, segs[:k]...), segs[k+1:]...)
+						probes = append(probes, "/"+strings.Join(without, "/"))
 					}
 				}
-			}
+				var evals, nontriv int64
+				for pi, path := range probes {
+					res := lookup(rt, path)
+					evals++
+					// reference over the patterns of the same group (others cannot match: literal first segment)
+					cand := byGroup[groupOf(path)]
+					cp := make([]string, len(cand))
+					ct := make([][]tok, len(cand))
+					local := result{found: res.found, params: res.params, panic: res.panic, data: -1}
+					for k, ci := range cand {
+						cp[k], ct[k] = pats[ci], toks[ci]
+						if res.found && res.data == ci {
+							local.data = k
+						}
+					}
+					if res.found && local.data < 0 {
+						r.Fail("scale-mismatch", fmt.Sprintf("table %d order %d: path %q answered with pattern %q of another group", n, oi, path, pats[res.data]), Case{pats, path, "lookup"})
+						continue
+					}
+					if res.found {
+						nontriv++
+					}
+					if cl, what := judge(cp, ct, path, local); cl != "" {
+						r.Fail("scale-"+cl, fmt.Sprintf("table of %d records, order %d, probe %d of record %q: %s", n, oi, pi, pats[i], what), Case{pats, path, "lookup"})
+					}
+				}
+				r.Eval(evals)
+				r.Nontrivial(nontriv)
+			})
 		}
 	}
 	r.Set("scale_tables", sizes)
+}
+
+// groupOf returns the first segment of a path including both slashes ("/g12/"), "" when there is none.
+func groupOf(p string) string {
+	if len(p) < 2 || p[0] != '/' {
+		return ""
+	}
+	j := strings.IndexByte(p[1:], '/')
+	if j < 0 {
+		return ""
+	}
+	return p[:j+2]
 }
